@@ -37,6 +37,8 @@ type Case struct {
 	Tables []gen.TableSpec `json:"tables"`
 	// completeness
 	Branch gen.Branch `json:"branch,omitempty"`
+	// AutoStep: the server's auto_increment_increment for this case (0 = 1); it differs between the cases of a process
+	AutoStep int64 `json:"auto_increment_increment,omitempty"`
 	// canonical: the forms (insert update select_for_update upsert delete) in the order they touch one row
 	Forms []string `json:"forms,omitempty"`
 	// overlap
@@ -132,6 +134,8 @@ func runCase(c Case) *pt.Failure {
 
 // runCompleteness: every row the local transaction wrote is named by the lock keys registered before its commit.
 func runCompleteness(c Case) *pt.Failure {
+	env.Srv.SetAutoIncStep(c.AutoStep)
+	defer env.Srv.SetAutoIncStep(1)
 	names, fl := setup(c)
 	if fl != nil {
 		return fl
@@ -669,7 +673,7 @@ func TestPropCompleteness(t *testing.T) {
 		for i := 0; i < ns; i++ {
 			br.Stmts = append(br.Stmts, gen.DrawStmt(rt, tables, stmtOptions()))
 		}
-		c := Case{Kind: "completeness", Tables: tables, Branch: br}
+		c := Case{Kind: "completeness", Tables: tables, Branch: br, AutoStep: rapid.SampledFrom([]int64{0, 0, 1, 2, 5}).Draw(rt, "autoStep")}
 		fl := runCase(c)
 		var ks []string
 		for _, s := range br.Stmts {
